@@ -137,6 +137,14 @@ def bind1(ctx, modules: Iterable[str], rule: str = "BIND-1") -> int:
                    ok, msg or "binds", fi, e.line, mod=w.module_of(e))
             if ok and callee.is_jit and callee.static_argnums:
                 _static_args_at_site(ctx, w, e, fi, f, callee, pos, kws, bound_self, mapping)
+    # every global name used in these modules resolves (import, module-level binding, builtin)
+    unknown = sorted({(path, nm, line) for path, nm, line in w.ev.unknown_names
+                      if path.split("/")[-1][:-3] in mods})
+    for path, nm, line in unknown:
+        ctx.rep.ob(rule, f"{path}: global name '{nm}' resolves", False,
+                   f"'{nm}' is neither imported, defined at module level nor a builtin (NameError when reached)",
+                   path, line)
+        n += 1
     ctx.rep.count("call_sites_resolved", resolved)
     ctx.rep.count("call_sites_external", external)
     if w.errors:
